@@ -18,7 +18,9 @@ type SpanCase struct {
 	CheckVars bool   `json:"check_vars"`
 }
 
-const vmLimitModel = 2_000_000
+const vmLimitModel = 400_000
+
+var lastSpanCaseSteps int64
 
 // checkSpanCase runs the implementation on the case and returns a non-empty
 // signature when it disagrees. discard=true: the VM step limit was hit.
@@ -31,6 +33,7 @@ func checkSpanCase(c SpanCase) (sig string, what string, discard bool) {
 		return "compile-error", "generated program does not compile: " + firstLine(err.Error()), false
 	}
 	res := RunSafe(v, c.Text, vmLimitModel)
+	lastSpanCaseSteps = res.Steps
 	if res.OverBudget {
 		return "", "", true
 	}
@@ -104,6 +107,8 @@ func modelProperty(id string, st *Stats, f Features, checkVars bool) func(t *rap
 			Fail(t, Failure{Property: id, Kind: "spans", What: fmt.Sprintf("%s on %q: %s", src, text, what), Case: c, Sig: sig})
 		}
 		st.Count("compared")
+		st.Max("max_vm_steps", lastSpanCaseSteps)
+		st.Max("max_vm_steps_per_model_step_x100", lastSpanCaseSteps*100/int64(max(mr.Steps, 1)))
 		st.Count("text_" + source)
 		if len(mr.Spans) > 0 {
 			st.Count("with_match")
@@ -163,7 +168,7 @@ func isASCII(s string) bool {
 
 func TestC01(t *testing.T) {
 	seedNote(t)
-	StartWatchdog("C01", 60*time.Second)
+	StartWatchdog("C01", 45*time.Second)
 	st := NewStats("C01", "model", "programs from the pattern IR (all core constructs, depth<=3) x texts (random / sampled from the pattern / mutated), as find all and replace all; reference matcher (and Go regexp on the regular subset) vs Run; non-trivial = >=1 match and the reference evaluation abandoned >=1 alternative or iteration; distinct by (source,text)")
 	defer st.Write()
 	rapid.Check(t, modelProperty("C01", st, AllModelFeatures, false))
@@ -171,7 +176,7 @@ func TestC01(t *testing.T) {
 
 func TestC02(t *testing.T) {
 	seedNote(t)
-	StartWatchdog("C02", 60*time.Second)
+	StartWatchdog("C02", 45*time.Second)
 	st := NewStats("C02", "model", "programs biased to `= name` under or / optional and repeated groups / subroutines / set-patterns with back-references x texts; reference environment at the successful continuation vs Match.Variables; non-trivial = >=1 match and a binding completed on a path later abandoned, or a name bound more than once; distinct by (source,text)")
 	defer st.Write()
 	f := AllModelFeatures
